@@ -13,6 +13,7 @@ SAN = ['-fsanitize=address,undefined', '-fno-sanitize-recover=undefined', '-fno-
 PROGRAMS = {
     'acf-can-listener': {'src': 'examples/acf-can/acf-can-listener.c', 'extra': ['examples/acf-can/acf-can-common.c'], 'defs': ['-DEX_HAS_CAN_VARIANT']},
     'acf-can-talker': {'src': 'examples/acf-can/acf-can-talker.c', 'extra': ['examples/acf-can/acf-can-common.c'], 'defs': []},
+    'acf-vss-talker': {'src': 'examples/acf-vss/acf-vss-talker.c', 'extra': [], 'defs': []},
     'hello-world-listener': {'src': 'examples/hello-world/hello-world-listener.c', 'extra': [], 'defs': []},
     'acf-vss-listener': {'src': 'examples/acf-vss/acf-vss-listener.c', 'extra': [], 'defs': []},
     'cvf-listener': {'src': 'examples/cvf/cvf-listener.c', 'extra': [], 'defs': []},
@@ -74,8 +75,10 @@ def selftest(bdir):
     return c
 
 
-def run_batch(exe, scripts, limit=2.0):
-    """scripts: list of (id, args, presets, [events]) -> dict id -> (status, effects, report)"""
+def run_batch(exe, scripts, limit=2.0, _confirm=True):
+    """scripts: list of (id, args, presets, [events]) -> dict id -> (status, effects, report)
+    A script that hits the watchdog is run again on its own with five times the limit before it is called a hang
+    (the watchdog measures wall-clock time and the machine may be busy)."""
     n = core.NCPU
     chunks = [scripts[i::n] for i in range(n)]
     env = dict(os.environ, ASAN_OPTIONS='detect_leaks=0:exitcode=77:abort_on_error=0:symbolize=1:allocator_may_return_null=1', UBSAN_OPTIONS='print_stacktrace=0')
@@ -98,6 +101,10 @@ def run_batch(exe, scripts, limit=2.0):
     missing = [s[0] for s in scripts if s[0] not in out]
     if missing:
         core.die_infra('%d scripts produced no result line (first: %s)' % (len(missing), missing[0]))
+    if _confirm:
+        hung = [s for s in scripts if out[s[0]][0] == 'hang']
+        for sc in hung[:40]:
+            out[sc[0]] = run_batch(exe, [sc], limit=limit * 5, _confirm=False)[sc[0]]
     return out
 
 
